@@ -28,6 +28,20 @@ IMPLS = ['input(a,b) output(y) y=and(a,b)',
          'input(a,b) output(y,z) y=xor(a,b) z=not(y)',
          'input(a,b) output(q,z) q=dff(a) z=and(q,b)']
 
+def handmade_impl():
+    """an implementation wired by hand through the public API: the first output port hangs behind two plain forks (g -> w -> w2 -> y)"""
+    from kyupy.circuit import Circuit, Node, Line
+    c = Circuit('hand')
+    a, b_ = Node(c, 'a'), Node(c, 'b')
+    g = Node(c, 'g', 'nand')
+    Line(c, a, g); Line(c, b_, g)
+    w, w2, y, z = Node(c, 'w'), Node(c, 'w2'), Node(c, 'y'), Node(c, 'z')
+    Line(c, g, w); Line(c, w, w2); Line(c, w2, y); Line(c, w, z)
+    for n in (a, b_, y, z):
+        c.io_nodes.append(n)
+    return c
+
+
 OPS = ['cell', 'fork', 'gof', 'limp', 'lexp', 'rml', 'rmn', 'ioapp', 'ioset', 'elim', 'copy', 'pickle', 'subst', 'chain', 'inst']
 OP = st.tuples(st.sampled_from(OPS + ['cell', 'fork', 'limp', 'limp', 'lexp', 'lexp', 'rml', 'rml', 'rmn', 'chain', 'inst', 'subst', 'elim']),
                st.integers(0, 999), st.integers(0, 999), st.integers(0, 5), st.integers(0, 5))
@@ -202,7 +216,7 @@ class Interp:
     def impls(self):
         if self._impls is None:
             from kyupy import bench
-            self._impls = [bench.parse(t) for t in IMPLS]
+            self._impls = [bench.parse(t) for t in IMPLS] + [handmade_impl()]
         return self._impls
 
     def rederive(self):
@@ -351,7 +365,10 @@ class Interp:
                 c.io_nodes[pos] = self.node(k); m.io[pos] = k; done = True
         elif name == 'elim':
             elig = [k for k, v in m.nodes.items() if k[1] and k not in m.io and len(v['outs']) == 1]
-            if all(len(m.nodes[k]['ins']) >= 1 and m.nodes[k]['ins'][0] is not None for k in elig):
+            undriven = [k for k in elig if not (len(m.nodes[k]['ins']) >= 1 and m.nodes[k]['ins'][0] is not None)]
+            elig = [k for k in elig if k not in undriven]       # an undriven 1:1 fork (never driven, or its driver line was removed) stays
+            if undriven: self.flags.add('elim_with_undriven_fork')
+            if True:
                 c.eliminate_1to1_forks()
                 for k in elig:
                     v = m.nodes[k]
